@@ -1078,9 +1078,10 @@ def run(ck):
     for _ in range(500 if thorough else 110):
         # lossless measurements: std has 1 or 2 significant digits, nominal goes down to the same decimal place
         k = rng.randint(-6, 6)
-        sd = rng.choice([rng.randint(1, 9) * 10, rng.randint(10, 99)])
+        # (uncertainties shows 2 digits of an uncertainty whose leading digits are 10..35, else 1)
+        sd = rng.choice([rng.randint(1, 9) * 10, rng.randint(10, 35), rng.randint(10, 35), rng.randint(10, 99)])
         nomi = rng.randint(-99999, 99999)
-        if sd % 10 == 0 and rng.random() < 0.7:
+        if sd % 10 == 0 and rng.random() < 0.9:
             nomi = nomi // 10 * 10
         v, s = F(nomi) * F(10) ** k, F(sd) * F(10) ** k
         unit = rng.choice(fmt_units)
